@@ -243,3 +243,19 @@ PLAN["C19"] = {
     "quick": {"wall": 170, "tests": [{"run": "TestC19", "shards": 12, "checks": 3, "timeout": 150, "shrink": "1s"}]},
     "thorough": {"wall": 1500, "tests": [{"run": "TestC19", "shards": 12, "checks": 40, "timeout": 1400, "shrink": "60s"}]},
 }
+
+PLAN["C10"]["quick"]["tests"][0]["shards"] = 12
+PLAN["C10"]["quick"]["tests"].append({"run": "TestC10Concurrent", "shards": 2, "checks": 150, "timeout": 100})
+PLAN["C10"]["thorough"]["tests"][0]["shards"] = 12
+PLAN["C10"]["thorough"]["tests"].append({"run": "TestC10Concurrent", "shards": 2, "checks": 6000, "timeout": 840})
+PLAN["C10"]["rule"] += ("; TestC10Concurrent: 2-8 goroutines x 1-40 writes (disjoint or overlapping ranges, sub-block lengths) through Server.WriteAt, counter must move by exactly N*k in RW "
+                        "and not at all in WO, also after reopen; the promotion clause (promoted replica reports the source's count, all RW replicas agree) is checked at every promotion and at the end "
+                        "of every stack program (C02-C07), the crash clause in C08")
+
+PLAN["C16"]["quick"]["tests"][0]["shards"] = 11
+PLAN["C16"]["quick"]["tests"].append({"run": "TestC16Controller", "shards": 3, "checks": 60, "timeout": 100})
+PLAN["C16"]["thorough"]["tests"][0]["shards"] = 11
+PLAN["C16"]["thorough"]["tests"].append({"run": "TestC16Controller", "shards": 3, "checks": 2500, "timeout": 840})
+PLAN["C16"]["rule"] += ("; TestC16Controller: stack programs (RF 1-3) with Controller.Resize(name,size) - grow, same size, shrink, wrong volume name, unparsable size - interleaved with writes, reads, "
+                        "snapshots, replica loss and rebuild: a refused request changes neither the controller's nor any replica's size; after a grow every attached replica reports and persists "
+                        "the new size, the tail of the added range accepts a write and the added range reads zero through the controller, all earlier data still reads back")
